@@ -249,6 +249,8 @@ def count_faults(acc, spec, out):
     cfg = spec.get("cfg", {})
     if cfg.get("nest") is not None:
         bump("tasks_nested_on_one_thread")
+    if cfg.get("migrate"):
+        bump("history_migrates_between_threads")
     if cfg.get("policy") == "starve":
         bump("starve")
     if cfg.get("drop"):
